@@ -1,6 +1,6 @@
 SPECIFICATION Spec
 CONSTANTS
-  DtNames = {"PK", "SA", "FC", "IC"}
+  DtNames = {"ST", "IC", "PK", "FC", "A2"}
   Edits = 2
   MaxTail = 2
   Wide = FALSE
